@@ -52,6 +52,20 @@ def exact_configs(m, cfgs):
                 st = T.mat_from_rph(np.array([rph, [10.0, 20.0, 30.0]]))
                 if st.shape != (2, 3, 3) or not np.allclose(st[0], got, rtol=0, atol=1e-15):
                     probs.append((c, "mat_from_rph(stacked)[0] differs from the single form"))
+                # angles given as integers (lists, int32 / int64 arrays, integer-typed table columns) are the same input
+                ref = T.mat_from_rph(np.array([10.0, -20.0, 30.0]))
+                irph = [int(x) for x in rph]
+                forms = {"nested int list": [irph, [10, -20, 30]], "int64 ndarray": np.array([irph, [10, -20, 30]], dtype=np.int64),
+                         "int32 ndarray": np.array([irph, [10, -20, 30]], dtype=np.int32),
+                         "integer-typed DataFrame": m["pd"].DataFrame([irph, [10, -20, 30]], columns=['roll', 'pitch', 'heading'])}
+                for name, arg in forms.items():
+                    sti = np.asarray(T.mat_from_rph(arg), float)
+                    if sti.shape != (2, 3, 3) or not (np.allclose(sti[0], got, rtol=0, atol=1e-15) and np.allclose(sti[1], ref, rtol=0, atol=1e-15)):
+                        probs.append((c, "mat_from_rph(%s) differs from the float form of the same angles (max |d| = %.3g)" % (
+                            name, float(max(np.abs(sti[0] - got).max(), np.abs(sti[1] - ref).max())) if sti.shape == (2, 3, 3) else float('nan'))))
+                        break
+                if not np.allclose(np.asarray(T.mat_from_rph([10, -20, 30]), float), ref, rtol=0, atol=1e-15):
+                    probs.append((c, "mat_from_rph(int list) differs from the float form"))
                 if back:
                     g = T.mat_to_rph(got)
                     want = [ANG[back[0]], ANG[back[1]], ANG[back[2]]]
